@@ -135,12 +135,17 @@ def judge_merge(case):
         j.check(err <= 1e-9, "merge-value", lambda: f"mode {mode}: merged={np.round(r[:, mode], 6).tolist()} expected={np.round(e, 6).tolist()} c={c[:, mode].tolist()} reflist={reflist}")
     for a, b in zip(ins, shapes):
         j.check(np.array_equal(a, b), "merge-mutates-input", "input mode-shape array modified")
-    # ordering cross-check against the geometry name flattening
+    # ordering cross-check against the geometry name flattening (list of lists and the row-table form)
+    import pandas as pd
+
     names = [[("REFX%d" % g if g < k else "S%d" % g) for g in s["chan"]] for s in lay["setups"]]
-    fl = sut(gen.flatten_sns_names, names, [list(x) for x in reflist])
-    if j.check(not raised(fl), "flatten-raises", lambda: f"{fl!r}"):
-        want = ["REF%d" % (i + 1) for i in range(k)] + ["S%d" % g for g in range(k, lay["ntot"])]
-        j.check(list(fl) == want, "flatten-order", lambda: f"{fl} expected {want}")
+    want = ["REF%d" % (i + 1) for i in range(k)] + ["S%d" % g for g in range(k, lay["ntot"])]
+    w = max(len(r_) for r_ in names)
+    table = pd.DataFrame([list(r_) + [np.nan] * (w - len(r_)) for r_ in names])
+    for form, obj in (("list", names), ("table", table)):
+        fl = sut(gen.flatten_sns_names, obj, [list(x) for x in reflist])
+        if j.check(not raised(fl), "flatten-raises", lambda: f"{form}: {fl!r}"):
+            j.check(list(fl) == want, "flatten-order", lambda: f"{form}: {fl} expected {want}")
     return j
 
 
@@ -229,6 +234,21 @@ def judge_poser(case):
             got = np.asarray(r.Phi)[:, mode]
             err = np.max(np.abs(got - e)) / max(np.max(np.abs(e)), 1e-300)
             j.check(err <= 1e-9, "poser-phi", lambda: f"group {nm} mode {mode}: err={err:.3e} c={c[:, mode].tolist()}")
+    # a new extraction on the setups followed by a second merge on the same object gives the new values
+    for i in range(ns):
+        for a, alg in enumerate(setups[i].algorithms.values()):
+            g = case["groups"][a]
+            alg._set_result(_ALGS[case["algs"][a]][1](Fn=1.5 * np.array(g["fn"][i]), Xi=np.array(g["xi"][i]), Phi=-(a + 2.0) * shapes[i]))
+    res2 = sut(ms.merge_results)
+    if j.check(not raised(res2), "poser-remerge-raises", lambda: f"{res2!r}"):
+        for a, nm in enumerate(names):
+            fn = 1.5 * np.array(case["groups"][a]["fn"])
+            j.check(np.allclose(np.asarray(res2[nm].Fn), fn.mean(axis=0), rtol=1e-12), "poser-remerge-fn", lambda: f"group {nm}: second merge returns {np.asarray(res2[nm].Fn).tolist()}, expected {fn.mean(axis=0).tolist()}")
+            e = -(a + 2.0) * exp
+            okm = [abs(Phi[:k, mode] @ Phi[:k, mode]) / max(np.vdot(Phi[:k, mode], Phi[:k, mode]).real, 1e-300) >= 0.05 for mode in range(e.shape[1])]
+            got = np.asarray(res2[nm].Phi)
+            bad = [mode for mode in range(e.shape[1]) if okm[mode] and np.max(np.abs(got[:, mode] - e[:, mode])) > 1e-9 * max(np.max(np.abs(e[:, mode])), 1e-300)]
+            j.check(not bad, "poser-remerge-phi", lambda: f"group {nm}: second merge returns stale or wrong shapes for modes {bad}")
     return j
 
 
